@@ -222,7 +222,9 @@ func (cs *cursorSession) run() {
 	case "order", "group":
 		n := 2 + cs.rnd.Intn(3)
 		for i := 0; i < n; i++ {
-			clear := cs.rnd.Intn(5) == 0
+			// clearing the selection: sometimes in between, often at the end (the whole result
+			// must be back)
+			clear := cs.rnd.Intn(6) == 0 || (i == n-1 && cs.rnd.Intn(2) == 0)
 			// (Select gets exactly the requirement columns, as joins and the repository's fuzz test do)
 			sels := cs.randSels(false)
 			ev := vh.E("Select", "clear", clear, "sels", selsJSON(sels, clear))
